@@ -905,6 +905,11 @@ pub fn parse(lex_tokens: &Vec<LexerToken>) -> Result<ParseResult, CompilerError>
             SecondaryDefinition::Whitespace | SecondaryDefinition::Annotation => true,
             _ => false,
         };
+        if waiting_for_operand && definition == Definition::ExpressionTerminator {
+            // an expression terminator is not an operand
+            composition_error(previous_second_def, secondary_definition, token)?;
+        }
+
         if !(waiting_for_operand && is_trivia) {
             previous_second_def = secondary_definition;
         }
